@@ -126,6 +126,8 @@ def list_content(I: Interp, ref, tree):
                 out.append(("loop", n[1], conv(n[2])))
             else:
                 m = n[1]
+                if m[0] == "alloc":
+                    continue
                 if m[2] == "append" and len(m[3]) == 1:
                     out.append(("e", m[3][0]))
                 elif m[2] == "extend" and len(m[3]) == 1:
